@@ -9,7 +9,9 @@ for name in sorted(os.listdir(S)):
     if not os.path.exists(mp):
         continue
     m = json.load(open(mp))
-    det = '; '.join(f"{k}: {v['verdict']}" + (f" — `{v['message'][:110]}`" if v['verdict'] == 'CAUGHT' and v.get('message') else '') for k, v in sorted(m.get('detected_by', {}).items()))
+    own = m['breaks_property']
+    items = sorted(m.get('detected_by', {}).items(), key=lambda kv: (not kv[0].startswith(own), kv[0]))
+    det = '; '.join(f"{k}: {v['verdict']}" + (f" — `{v['message'][:110]}`" if v['verdict'] == 'CAUGHT' and v.get('message') and k.startswith(own) else '') for k, v in items)
     rows.append(f"| {name} | {m['breaks_property']} | {m.get('needs_to_manifest', '')} | {det} |")
 with open(os.path.join(S, 'MATRIX.md'), 'w') as f:
     f.write('# Seeded changes and the checks that catch them\n\nEach change was written by an independent sub-agent that saw only the property text and a scratch worktree; '
